@@ -56,7 +56,7 @@ func verifC05Teardown(strategyKind int) {
 		}
 		return nil
 	}
-	cache := &vCache{vReader{Objs: map[client.ObjectKey]*unstructured.Unstructured{}}}
+	cache := &vCache{vReader: vReader{Objs: map[client.ObjectKey]*unstructured.Unstructured{}}}
 	uncached := &vReader{Objs: map[client.ObjectKey]*unstructured.Unstructured{}, Err: map[client.ObjectKey]error{}}
 	getOutcome := verifrt.IntRange("getOutcome", 0, 2) // object | NotFound | opaque error
 	switch getOutcome {
@@ -200,7 +200,7 @@ func (s *vAdoptionScenario) vCheckOwnerRemovalPatch(p vWrite) bool {
 func VerifC04TeardownPhase() {
 	n := verifrt.IntRange("nObjects", 0, verifrt.Bound("maxObjects", 2))
 	uncached := &vReader{Objs: map[client.ObjectKey]*unstructured.Unstructured{}, Err: map[client.ObjectKey]error{}}
-	cache := &vCache{vReader{Objs: map[client.ObjectKey]*unstructured.Unstructured{}}}
+	cache := &vCache{vReader: vReader{Objs: map[client.ObjectKey]*unstructured.Unstructured{}}}
 	w := &vWriter{}
 	owner, me := vObjectSetOwner(0, "me", "uid-me", vNS, 3, false)
 	var phase corev1alpha1.ObjectSetTemplatePhase
